@@ -11,6 +11,8 @@
 //   dump      writes (t, text) and (usecs, precision, text) lines to <out>.c18dump for the Python oracle
 //             (vf/oracles/c18.py: CPython datetime/timedelta + integer arithmetic); judges nothing itself
 //
+// errno is poisoned with a rotating stale value (vf::poison_errno) immediately before every call into phosg.
+//
 // Duration oracle: the text must be [d:][hh:][mm:]ss[.f{p}] (digits only, every field after the first
 // exactly two integer digits, exactly p fraction digits when p >= 0), and, with f = number of printed
 // fraction digits, |eval(text) - usecs| <= 0.5 * 10^(6-f) us in exact integer arithmetic (inclusive, so
@@ -136,6 +138,7 @@ static void check_duration(uint64_t us, int p) {
   const char* br = branch_of(us);
   string text;
   try {
+    vf::poison_errno();
     text = phosg::format_duration(us, (int8_t)p);
   } catch (const std::exception& e) {
     n_dur_throw++;
@@ -318,6 +321,7 @@ static void check_time(uint64_t t, const char* kind) {
   C->crumb_n("format_time", t);
   string text;
   try {
+    vf::poison_errno();
     text = phosg::format_time(t);
   } catch (const std::exception& e) {
     C->violation("format_time:throws", string("format_time threw (") + e.what() + ")", fmt("format_time(%" PRIu64 ")", t));
@@ -469,7 +473,9 @@ static void check_size(uint64_t s, const char* kind) {
     string text;
     uint64_t back = 0;
     try {
+      vf::poison_errno();
       text = phosg::format_size((size_t)s, incl != 0);
+      vf::poison_errno();
       back = phosg::parse_size(text.c_str());
     } catch (const std::exception& e) {
       C->violation(fmt("size:throws:%s", mag), e.what(), fmt("format_size(%" PRIu64 ", %d)", s, incl));
@@ -524,7 +530,9 @@ static void check_size_reverse(unsigned whole, unsigned cents, int unit) {
   C->evaluations++;
   string text = fmt("%u.%02u %cB", whole, cents, UNITS[unit]);
   C->crumb_s("parse_size " + text);
+  vf::poison_errno();
   uint64_t v = phosg::parse_size(text.c_str());
+  vf::poison_errno();
   string again = phosg::format_size((size_t)v, false);
   SizeText t2 = read_size_text(again);
   auto kase = [&]() { return fmt("parse_size(\"%s\") = %" PRIu64 "; format_size(that) = \"%s\"", text.c_str(), v, again.c_str()); };
@@ -611,17 +619,21 @@ static void size_suite(vf::Rng& r) {
 static void check_timeval(uint64_t x, const char* kind) {
   C->evaluations++;
   C->crumb_n("timeval", x);
+  vf::poison_errno();
   struct timeval tv = phosg::usecs_to_timeval(x);
   auto kase = [&]() { return fmt("usecs_to_timeval(%" PRIu64 ") = {tv_sec=%lld, tv_usec=%lld}", x, (long long)tv.tv_sec, (long long)tv.tv_usec); };
   if (tv.tv_usec < 0 || tv.tv_usec >= 1000000 || (uint64_t)tv.tv_sec != x / US || (uint64_t)tv.tv_usec != x % US)
     C->violation("timeval:split", "usecs_to_timeval is not {x / 10^6, x % 10^6}", kase());
+  vf::poison_errno();
   uint64_t back = phosg::timeval_to_usecs(tv);
   if (back != x) C->violation("timeval:round-trip", "timeval_to_usecs(usecs_to_timeval(x)) != x", kase() + fmt(" -> %" PRIu64, back));
   // other direction on the normalised timeval
   struct timeval tv2;
   tv2.tv_sec = (time_t)(x / US);
   tv2.tv_usec = (suseconds_t)(x % US);
+  vf::poison_errno();
   uint64_t u = phosg::timeval_to_usecs(tv2);
+  vf::poison_errno();
   struct timeval tv3 = phosg::usecs_to_timeval(u);
   if (tv3.tv_sec != tv2.tv_sec || tv3.tv_usec != tv2.tv_usec)
     C->violation("timeval:round-trip-tv", "usecs_to_timeval(timeval_to_usecs(tv)) != tv for a normalised tv",
